@@ -27,6 +27,8 @@ def verify_contract(db, cc, target=None, prefix=None, engine_cls=Engine, fixed=N
     """-> (engine, obligations, funcinfo).  Raises Unsupported when the function leaves the supported subset."""
     target = target or cc.target
     fi = extract.load_function(target)
+    from . import expr as _expr
+    _expr.ABSTRACT_SQUARE = bool(cc.options.get("abstract_square"))
     ex = engine_cls(db, fi, cc, prefix=prefix or target)
     ex.local_cells = set()
     ex.local_iter_cells = set()
